@@ -398,6 +398,15 @@ pub fn run_check(id: &str, tier: &str, seed: u64) -> i32 {
     };
     let rt = "random seeded runs of the real manager/store/provider/block-watcher against SimNode under a hostile scheduler; a case is one run; distinct_nontrivial = number of distinct abstract traces (sequence of (step kind, per-hash durable record, parts-status multiset, held count)) among runs in which a target rule was actually evaluated";
     let fe = |profiles: &[Profile], rules: &[&str], runs: u64, text: &str| -> i32 {
+        // the slow-pay / dropped-connection E2E sessions mostly wait: run them beside the SIM campaign
+        let transport_handle = match (std::env::var("VMON_PLUGIN_BIN"), id == "C02" || id == "C05") {
+            (Ok(bin), true) => {
+                let slow: Vec<u64> = if id == "C02" { if thorough { vec![35, 35, 65] } else { vec![33] } } else { vec![] };
+                let drops = if id == "C05" { if thorough { 24 } else { 6 } } else { 0 };
+                Some(std::thread::spawn(move || crate::e2e_checks::pay_transport_sessions(&bin, seed, &slow, drops)))
+            }
+            _ => None,
+        };
         let mut agg = campaign(id, rules, seed, thorough, profiles, runs, if thorough { 1200 } else { 60 });
         let random_runs = agg.runs;
         let e = crate::enumerate::enumerate(id, rules, thorough, if thorough { 1500 } else { 100 });
@@ -414,11 +423,13 @@ pub fn run_check(id: &str, tier: &str, seed: u64) -> i32 {
         merge(&mut agg, e.agg);
         let mut extra = extra;
         let mut e2e_exit = 0;
-        if let (Ok(bin), true) = (std::env::var("VMON_PLUGIN_BIN"), id == "C02" || id == "C05") {
+        if let Some(h) = transport_handle {
             // real rpc.rs: a pay command that runs for a long time (C02), a connection that dies
             // after pay was accepted (C05)
-            let slow: Vec<u64> = if id == "C02" { if thorough { vec![35, 35, 65] } else { vec![33] } } else { vec![] };
-            let r = crate::e2e_checks::pay_transport_sessions(&bin, seed, &slow, if id == "C05" { if thorough { 24 } else { 6 } } else { 0 });
+            let r = match h.join() {
+                Ok(r) => r,
+                Err(_) => crate::e2e::E2eResult { coverage: json!("e2e thread panicked"), violations: BTreeMap::new(), evals: BTreeMap::new(), inconclusive: vec!["pay transport sessions panicked".into()] },
+            };
             extra["e2e_pay_transport_sessions"] = r.coverage;
             let want: &[&str] = if id == "C02" { &["R02|"] } else { &["R05|"] };
             for (sig, (n, w)) in r.violations.iter() {
